@@ -203,29 +203,25 @@ def stepB (bf : List (Option Bloom.Filter)) : BOp → List (Option Bloom.Filter)
     | some none => (bf, .err "nofilter")
     | none => (bf, .err "bad-op")
 
-def stepT (t : Option Radix.Tree) : TOp → Option Radix.Tree × Obs
-  | .new => (some Radix.Tree.empty, .ok)
-  | op =>
-    match t with
-    | none => (none, .err "notree")
-    | some tr =>
-      match op with
-      | .ins k v =>
-        let (tr', r) := tr.insert k v
-        (some tr', .insRes r.val r.inserted)
-      | .get k =>
-        match tr.get k with
-        | some v => (t, .int v)
-        | none => (t, .nil)
-      | .del p =>
-        let (tr', n) := tr.deletePrefix p
-        (some tr', .nat n)
-      | .min => (t, leafObs (Radix.Node.min tr.root))
-      | .max => (t, leafObs (Radix.Node.max tr.root))
-      | .len => (t, .int tr.size)
-      | .walk => (t, .pairs ((Radix.Node.walk tr.root).map fun l => (l.key, l.val)))
-      | .dump => (t, .text (dumpNode tr.root))
-      | .new => (t, .err "bad-op")
+def stepT (t : Option Radix.Tree) (op : TOp) : Option Radix.Tree × Obs :=
+  match op, t with
+  | .new, _ => (some Radix.Tree.empty, .ok)
+  | _, none => (none, .err "notree")
+  | .ins k v, some tr =>
+    let (tr', r) := tr.insert k v
+    (some tr', .insRes r.val r.inserted)
+  | .get k, some tr =>
+    match tr.get k with
+    | some v => (t, .int v)
+    | none => (t, .nil)
+  | .del p, some tr =>
+    let (tr', n) := tr.deletePrefix p
+    (some tr', .nat n)
+  | .min, some tr => (t, leafObs (Radix.Node.min tr.root))
+  | .max, some tr => (t, leafObs (Radix.Node.max tr.root))
+  | .len, some tr => (t, .int tr.size)
+  | .walk, some tr => (t, .pairs ((Radix.Node.walk tr.root).map fun l => (l.key, l.val)))
+  | .dump, some tr => (t, .text (dumpNode tr.root))
 
 def stepS (ss : List IDSet.Set) : SOp → List IDSet.Set × Obs
   | .new r ids => if r < nReg then (ss.set r (IDSet.addMany [] ids), .ok) else (ss, .err "bad-op")
